@@ -24,15 +24,15 @@ NA = {
 CHECKS = {
  'C16': dict(engine='primsim', category='exploration', design_ref='DESIGN.md section 3 / C16',
    technique='deterministic simulation: seeded stream/cursor/EOF-fault simulation of the primitive decoders against a reference codec + cursor model',
-   text="Seeded deterministic simulation of the primitive decoders as stream behaviour: generated images from an independent reference codec, a cursor model, displacement between parses, and an injected end-of-file at every byte of every generated encoding; plus enumerated LEB128 prefixes and 24-bit values. Sampling of values (boundary classes), complete EOF sweep per encoding: evidence, not proof.",
+   text="Seeded deterministic simulation of the primitive decoders as stream behaviour: generated images from an independent reference codec, a cursor model, displacement between parses, and an injected end-of-file at every byte of every generated encoding; plus enumerated LEB128 prefixes and 24-bit values. The primitives are exercised as classes and as a DWARFStructs instance hands them out (every Dwarf_* integer attribute, both byte orders, formats and address sizes), and composed in abbreviation declarations (repeat-until with signed implicit constants). Sampling of values (boundary classes), complete EOF sweep per encoding: evidence, not proof.",
    note="Trusted: the 80-line reference codec in dst/engines/primsim.py and SimStream's BytesIO-compatible semantics. Initial-length words 0xffffff00..0xffffffef are accepted either way (DWARF v3 vs v4/v5 disagree)."),
  'C19': dict(engine='faultsim', category='fault_enumeration', design_ref='DESIGN.md section 3 / C19',
    technique='deterministic simulation with fault injection: enumerated and seeded stored-byte faults (truncation, substitution, structure-aware field corruption, random bytes) on a simulated disk with an I/O clock and read-request accounting',
-   text="Every truncation length up to 4 KiB and around every structural boundary, every listed single-byte substitution of the 64-byte header region (enumerated per seed image; quick sweeps a seeded third of the images, thorough all), plus seeded multi-field structure-aware corruptions and random byte strings. Oracles: constructor outcome is success or ELFError; the fixed enumeration battery terminates within deterministic budgets on the simulated I/O clock (stream operations, bytes returned, largest read request). Enumeration of the named fault classes on the seed images; sampling for field/bytes.",
-   note="Trusted: SimStream's BytesIO-compatible semantics and accounting; budget constants K_ops=K_bytes=1024*W, K_read=16*W with W=max(file size, 4096) - generous on purpose, they separate loops bounded by the file size or a 16-bit count from loops driven by an unchecked 32/64-bit field. Loops that do no I/O are only caught by the wall-clock watchdog."),
+   text="Every truncation length up to 4 KiB and around every structural boundary, every listed single-byte substitution of the 64-byte header region (enumerated per seed image; quick sweeps a seeded third of the images, thorough all), plus seeded multi-field structure-aware corruptions and random byte strings. Oracles: constructor outcome is success or ELFError; the fixed enumeration battery terminates within deterministic budgets on the simulated I/O clock (stream operations, bytes returned, largest read request) and allocates at most 64*W + 4 MiB at once (every run screened by the growth of its process, decided by the tracemalloc peak of a second execution when the screen trips; MemoryError under a 1 GiB address-space limit is a violation). Enumeration of the named fault classes on the seed images; sampling for field/bytes.",
+   note="Trusted: SimStream's BytesIO-compatible semantics and accounting; budget constants K_ops=K_bytes=1024*W, K_read=16*W with W=max(file size, 4096) - generous on purpose, they separate loops bounded by the file size or a 16-bit count from loops driven by an unchecked 32/64-bit field. Loops that do no I/O are only caught by the wall-clock watchdog. Allocations below the bound are not judged; the screening stage reads /proc/self/status."),
  'C10': dict(engine='histsim', category='exploration', design_ref='DESIGN.md section 3 / C10',
    technique='deterministic simulation: seeded cooperative scheduler interleaving client tasks step by step (one API call / one next() per step) on one shared opened file, with cursor displacement and iterator abandonment injected between steps; oracle = solo execution on a fresh object + sequential catalogue',
-   text="Seeded search over call histories: 1-4 client tasks x 1-8 ops drawn from ~80 public read-only op kinds (ELF and DWARF level), every library iterator interruptible at every element, cursor of every shared stream (file and each debug section) displaced between steps, iterators abandoned half-way, repeated queries, a second DWARFInfo mid-history. Each step must equal the same step of the op run alone on a fresh object; solo answers must agree with the sequential catalogue (linear DIE scan + derived nesting, linear table scans). Sampling of histories: evidence, not proof.",
+   text="Seeded search over call histories: 1-4 client tasks x 1-8 ops drawn from ~80 public read-only op kinds (ELF and DWARF level), every library iterator interruptible at every element, cursor of every shared stream (file and each debug section) displaced between steps, iterators abandoned half-way, repeated queries, a second DWARFInfo mid-history (also with other get_dwarf_info arguments than the calls before it). Each step must equal the same step of the op run alone on a fresh object; solo answers must agree with the sequential catalogue (linear DIE scan + derived nesting, linear table scans). Sampling of histories: evidence, not proof.",
    note="Trusted: SimStream semantics, the canonicaliser, the catalogue's nesting model. The solo reference is the same library in isolation, so an error identical in every history is invisible here by design (that is what the pure-decode properties are about). Arguments stay inside each query's documented domain."),
  'C13': dict(engine='histsim', category='exploration', design_ref='DESIGN.md section 3 / C13',
    technique='deterministic simulation: the E1 scheduler with the op mix restricted to unit / address-range / name-table lookups over the lazily filled, bisect-maintained unit cache; oracle = linear scans of the tables and unit extents + solo execution',
@@ -48,8 +48,8 @@ CHECKS = {
    note="On corpus images both views share the tag/symbol/relocation decoders, so a consistent decode error is only visible on the synthetic images (ground truth). Preconditions computed by an independent struct-based reader (dst/core/elfraw.py). Trusted: the image writer dst/core/elfbuild.py (cross-read with GNU readelf during development)."),
  'C03': dict(engine='idxsim', category='exploration', design_ref='DESIGN.md section 3 / C03',
    technique='deterministic simulation with fault injection: hash-index events (31-bit hash collisions, bloom false positives) injected as stored bytes on the simulated disk, seeded query workloads with cursor displacement; oracle = linear scan of the symbol table + raw chain walk',
-   text="Scope: the lookup and count clauses (plus enumeration of names on synthetic images). For every SysV/GNU hash section of the corpus, the same tables reached through the dynamic segment of the image without section headers, and seeded synthetic images with an own hash-table 'linker' (bloom sizes 1-8 incl. non powers of two, 1-16 buckets, symoffset anywhere, chains ending at the table end, colliding/long/non-ASCII names, padded symbol entries, both classes and byte orders): seeded query lists (present names, constructed same-hash absent names, same-bucket absent names, random absent, empty, non-ASCII, unhashed symbols) with cursor displacement between queries, with injected chain-word collisions and bloom false positives; completeness and soundness of hash lookup, exactness of get_symbol_by_name, and the recovered count are compared with a linear scan of the linked table (synthetic images: with the names the writer encoded) and the raw bucket/chain walk.",
-   note="That each enumerated symbol equals its encoded bytes is pure decode and only judged on synthetic images (names). The count clause is asserted only for tables satisfying the GNU format invariant (every index >= symoffset is hashed); ld's empty-table convention is counted as outside the envelope. Trusted: reference hash functions and raw table walk in dst/core/elfraw.py, the image writer dst/core/elfbuild.py."),
+   text="Scope: the lookup and count clauses on every image; on synthetic images also the enumeration clause against the writer's ground truth (name, value, size, binding, type, visibility, other bits, section index of every entry; extended section indices through an SHT_SYMTAB_SHNDX companion table). For every SysV/GNU hash section of the corpus, the same tables reached through the dynamic segment of the image without section headers, and seeded synthetic images with an own hash-table 'linker' (bloom sizes 1-8 incl. non powers of two, 1-16 buckets, symoffset anywhere, chains ending at the table end, colliding/long/non-ASCII names, padded symbol entries, both classes and byte orders): seeded query lists (present names, constructed same-hash absent names, same-bucket absent names, random absent, empty, non-ASCII, unhashed symbols) with cursor displacement between queries, with injected chain-word collisions and bloom false positives; completeness and soundness of hash lookup, exactness of get_symbol_by_name, and the recovered count are compared with a linear scan of the linked table (synthetic images: with the names the writer encoded) and the raw bucket/chain walk.",
+   note="That each enumerated symbol equals its encoded bytes is pure decode and only judged on synthetic images (ground truth of the writer). The count clause is asserted only for tables satisfying the GNU format invariant (every index >= symoffset is hashed); ld's empty-table convention is counted as outside the envelope. Trusted: reference hash functions and raw table walk in dst/core/elfraw.py, the image writer dst/core/elfbuild.py."),
 }
 
 def main():
